@@ -1,1 +1,466 @@
-/-! # C10 — property theorems (not built yet) -/
+import PysphVerif.Lemmas.SolverLoop
+/-!
+# C10 — the solver loop reaches `tf` exactly and honours the output schedule
+
+Property theorems only (helper lemmas live in `Lemmas/SolverLoop.lean`).  They
+are about `Model/SolverLoop.lean`, which transcribes `Solver.solve`,
+`_get_timestep`, `_compute_timestep`, `_damp_timestep`,
+`_dump_output_if_needed`, `_land_on_output_time` and `_get_solver_data` (as
+repaired by proposed_fixes/C10-output-time-landing.diff) and is tied to the
+code by bit-exact differential execution of whole event traces at `Float`.
+
+All statements hold over every linearly ordered field `α` and every
+configuration `c`, initial step `dt0` with `Good c dt0`: ε ≥ 0, tf ≥ 0,
+arbitrary positive damping factors, an ARBITRARY positive adaptive sequence
+`c.adapt : ℕ → Option α` (with `none` = the integrator declines), arbitrary
+`pfreq`, `n_damp`, `max_steps`, and any sorted list of requested times
+(clustered, duplicated, on step times, equal to or beyond tf).
+`(solve c dt0).2` is the whole event trace, `(solve c dt0).1` the final state.
+-/
+set_option linter.unusedSectionVars false
+namespace PysphVerif.C10
+open PysphVerif.SolverLoop
+
+variable {α : Type} [Field α] [LinearOrder α] [IsStrictOrderedRing α]
+
+/-- the states with which `integrator.step(t, dt)` was called, in order -/
+def stepsOf : List (Ev α) → List (St α)
+  | [] => []
+  | Ev.step s :: rest => s :: stepsOf rest
+  | _ :: rest => stepsOf rest
+
+/-- the trace without the dump events -/
+def noDumps : List (Ev α) → List (Ev α)
+  | [] => []
+  | Ev.dump _ :: rest => noDumps rest
+  | e :: rest => e :: noDumps rest
+
+/-- `(pre, step, post)*` -/
+def Bracketed : List (Ev α) → Prop
+  | [] => True
+  | Ev.pre :: Ev.step _ :: Ev.post :: rest => Bracketed rest
+  | _ => False
+
+/-! ## structure of the trace (private helpers) -/
+
+private theorem dumpIfNeeded_snd (c : Cfg α) (g : St α) :
+    (dumpIfNeeded c g).2 = [] ∨ (dumpIfNeeded c g).2 = [Ev.dump (dumpIfNeeded c g).1] := by
+  unfold dumpIfNeeded
+  split
+  · left; rfl
+  · dsimp only
+    split
+    · right; rfl
+    · left; rfl
+
+private theorem mem_iterEv (c : Cfg α) (s : St α) (e : Ev α) (h : e ∈ iterEv c s) :
+    e = Ev.pre ∨ e = Ev.step s ∨ e = Ev.post ∨ e = Ev.dump (iterSt c s) := by
+  unfold iterEv at h
+  rcases List.mem_append.mp h with h1 | h2
+  · simp at h1
+    rcases h1 with h | h | h
+    · left; exact h
+    · right; left; exact h
+    · right; right; left; exact h
+  · right; right; right
+    rcases dumpIfNeeded_snd c (getTimestep c (advance c s)) with h0 | h0
+    · rw [h0] at h2; simp at h2
+    · rw [h0] at h2; simpa [iterSt] using h2
+
+private theorem mem_solve (c : Cfg α) (dt0 : α) (e : Ev α) (h : e ∈ (solve c dt0).2) :
+    e = Ev.dump (init c dt0) ∨ e ∈ (loop c c.maxSteps (start c dt0)).2 ∨
+      e = Ev.dump (solve c dt0).1 := by
+  unfold solve at h ⊢
+  simp only [List.mem_append, List.mem_cons, List.not_mem_nil, or_false] at h
+  rcases h with (h | h) | h
+  · left; exact h
+  · right; left; exact h
+  · right; right; exact h
+
+/-- every event of the loop satisfies `Q` if every event of a guarded pass from
+a state satisfying the invariant does -/
+private theorem loop_inv_events (c : Cfg α) (dt0 : α) (G : Good c dt0) (Q : Ev α → Prop)
+    (hev : ∀ s, Inv c s → guard c s = true → ∀ e ∈ iterEv c s, Q e) :
+    ∀ e ∈ (loop c c.maxSteps (start c dt0)).2, Q e :=
+  loop_events c (Inv c) Q
+    (fun s I hg => inv_iterSt c dt0 G s I (guard_running c s hg).1) hev _ _ (inv_start c dt0 G)
+
+private theorem inv_final (c : Cfg α) (dt0 : α) (G : Good c dt0) : Inv c (solve c dt0).1 :=
+  loop_final c (Inv c) (fun s I hg => inv_iterSt c dt0 G s I (guard_running c s hg).1)
+    _ _ (inv_start c dt0 G)
+
+/-- a `step` event of the run is a guarded loop-head state satisfying the invariant -/
+private theorem step_event (c : Cfg α) (dt0 : α) (G : Good c dt0) (s : St α)
+    (h : Ev.step s ∈ (solve c dt0).2) : Inv c s ∧ Running c s := by
+  rcases mem_solve c dt0 _ h with h | h | h
+  · cases h
+  · refine loop_inv_events c dt0 G (fun e => ∀ s, e = Ev.step s → Inv c s ∧ Running c s) ?_ _ h s rfl
+    intro s' I hg e he s'' hs
+    subst hs
+    rcases mem_iterEv c s' _ he with h | h | h | h
+    · cases h
+    · cases h; exact ⟨I, (guard_running c s' hg).1⟩
+    · cases h
+    · cases h
+  · cases h
+
+/-! ## time increases strictly -/
+
+/-- Every step the integrator is asked to take has `dt > 0`. -/
+theorem step_dt_pos (c : Cfg α) (dt0 : α) (G : Good c dt0) (s : St α)
+    (h : Ev.step s ∈ (solve c dt0).2) : 0 < s.dt :=
+  let ⟨I, hr⟩ := step_event c dt0 G s h; I.dt_pos hr
+
+private theorem iterSt_t (c : Cfg α) (s : St α) : (iterSt c s).t = s.t + s.dt := by
+  unfold iterSt
+  rw [dumpIfNeeded_fst]
+  split
+  · rw [(getTimestep_fields c _).1]; rfl
+  · rw [(landOn_t _ _).1, (getTimestep_fields c _).1]; rfl
+
+private theorem iterSt_count (c : Cfg α) (s : St α) : (iterSt c s).count = s.count + 1 := by
+  unfold iterSt
+  rw [dumpIfNeeded_fst]
+  split
+  · rw [(getTimestep_fields c _).2.2]; rfl
+  · rw [(landOn_t _ _).2.2.1, (getTimestep_fields c _).2.2]; rfl
+
+private theorem stepsOf_append (l1 l2 : List (Ev α)) :
+    stepsOf (l1 ++ l2) = stepsOf l1 ++ stepsOf l2 := by
+  induction l1 with
+  | nil => rfl
+  | cons e rest ih => cases e <;> simp [stepsOf, ih]
+
+private theorem stepsOf_iterEv (c : Cfg α) (s : St α) : stepsOf (iterEv c s) = [s] := by
+  unfold iterEv
+  rcases dumpIfNeeded_snd c (getTimestep c (advance c s)) with h0 | h0 <;>
+    rw [h0] <;> simp [stepsOf]
+
+private theorem mem_stepsOf (l : List (Ev α)) (b : St α) : b ∈ stepsOf l ↔ Ev.step b ∈ l := by
+  induction l with
+  | nil => simp [stepsOf]
+  | cons e rest ih => cases e <;> simp [stepsOf, ih]
+
+private theorem loop_steps_ge (c : Cfg α) (dt0 : α) (G : Good c dt0) :
+    ∀ fuel s, Inv c s → ∀ b, Ev.step b ∈ (loop c fuel s).2 → s.t ≤ b.t := by
+  intro fuel s I b hb
+  refine loop_events c (fun s' => Inv c s' ∧ s.t ≤ s'.t) (fun e => ∀ b, e = Ev.step b → s.t ≤ b.t)
+    ?_ ?_ fuel s ⟨I, le_refl _⟩ _ hb b rfl
+  · intro s' ⟨I', hle⟩ hg
+    have hr := (guard_running c s' hg).1
+    refine ⟨inv_iterSt c dt0 G s' I' hr, ?_⟩
+    rw [iterSt_t]
+    have := I'.dt_pos hr
+    linarith
+  · intro s' ⟨_, hle⟩ _ e he b' hb'
+    subst hb'
+    rcases mem_iterEv c s' _ he with h | h | h | h
+    · cases h
+    · cases h; exact hle
+    · cases h
+    · cases h
+
+private theorem loop_steps_pairwise (c : Cfg α) (dt0 : α) (G : Good c dt0) :
+    ∀ fuel s, Inv c s → (stepsOf (loop c fuel s).2).Pairwise (fun a b => a.t + a.dt ≤ b.t) := by
+  intro fuel
+  induction fuel with
+  | zero => intro s _; simp [loop, stepsOf]
+  | succ n ih =>
+    intro s I
+    unfold loop
+    split
+    · rename_i hg
+      have hr := (guard_running c s hg).1
+      have I' := inv_iterSt c dt0 G s I hr
+      simp only [stepsOf_append, stepsOf_iterEv, List.singleton_append]
+      refine List.pairwise_cons.mpr ⟨?_, ih _ I'⟩
+      intro b hb
+      have := loop_steps_ge c dt0 G n _ I' b ((mem_stepsOf _ _).mp hb)
+      rw [iterSt_t] at this
+      exact this
+    · simp [stepsOf]
+
+/-- **Time increases strictly.**  Every later step starts at or after the end
+`t + dt` of every earlier one (and each `dt` is positive by `step_dt_pos`). -/
+theorem time_strictly_increases (c : Cfg α) (dt0 : α) (G : Good c dt0) :
+    (stepsOf (solve c dt0).2).Pairwise (fun a b => a.t + a.dt ≤ b.t ∧ a.t < b.t) := by
+  have h1 : stepsOf (solve c dt0).2 = stepsOf (loop c c.maxSteps (start c dt0)).2 := by
+    unfold solve
+    simp [stepsOf_append, stepsOf]
+  have h2 := loop_steps_pairwise c dt0 G c.maxSteps _ (inv_start c dt0 G)
+  rw [h1]
+  have hpos : ∀ a ∈ stepsOf (loop c c.maxSteps (start c dt0)).2, 0 < a.dt := by
+    intro a ha
+    apply step_dt_pos c dt0 G a
+    rw [← mem_stepsOf, h1]; exact ha
+  clear h1
+  generalize stepsOf (loop c c.maxSteps (start c dt0)).2 = L at h2 hpos
+  induction h2 with
+  | nil => exact List.Pairwise.nil
+  | @cons a l hab _ ih =>
+    refine List.Pairwise.cons ?_ (ih (fun x hx => hpos x (List.mem_cons_of_mem _ hx)))
+    intro b hb
+    have := hab b hb
+    have := hpos a (List.mem_cons_self)
+    exact ⟨hab b hb, by linarith⟩
+
+/-- The time handed to the next `integrator.step` is exactly `t + dt`. -/
+theorem time_advances_by_dt (c : Cfg α) (s : St α) :
+    (iterSt c s).t = s.t + s.dt ∧ (iterSt c s).count = s.count + 1 :=
+  ⟨iterSt_t c s, iterSt_count c s⟩
+
+/-! ## no step exceeds the current step size -/
+
+/-- Outside the early return, `nom` is the current step size: the value the
+integrator proposed (or, when it declines / in fixed mode, the undamped
+previous nominal step) times the damping factor for this iteration. -/
+theorem nom_is_current_step_size (c : Cfg α) (a : St α) (h : ¬ absv (c.tf - a.t) < a.eps) :
+    (getTimestep c a).nom =
+      (computeTimestep c (restorePrev a)).1 * newDamp c (computeTimestep c (restorePrev a)).2 ∧
+    (getTimestep c a).damp = newDamp c (computeTimestep c (restorePrev a)).2 := by
+  unfold getTimestep
+  simp only [h, if_false]
+  exact ⟨(dampAndLand_fields c _ _).2.2.2.2.2, (dampAndLand_fields c _ _).2.2.2.2.1⟩
+
+/-- **No step exceeds the current (damped, adaptive or fixed) step size**,
+except that the step that lands on `tf` may be longer by less than ε. -/
+theorem step_le_current_dt (c : Cfg α) (dt0 : α) (G : Good c dt0) (s : St α)
+    (h : Ev.step s ∈ (solve c dt0).2) :
+    s.dt ≤ s.nom ∨ (s.landed = true ∧ s.dt < s.nom + s.eps) :=
+  let ⟨I, hr⟩ := step_event c dt0 G s h; I.le_nom hr
+
+/-! ## the loop ends at `tf` -/
+
+/-- **Reaches `tf`.**  If the loop was not stopped by `max_steps`, the final
+time satisfies `tf - ε ≤ t ≤ tf` with ε the solver's own final epsilon; time
+never exceeds `tf`. -/
+theorem lands_on_tf (c : Cfg α) (dt0 : α) (G : Good c dt0)
+    (hmax : (solve c dt0).1.count < c.maxSteps) :
+    (solve c dt0).1.t ≤ c.tf ∧ c.tf - (solve c dt0).1.t ≤ (solve c dt0).1.eps := by
+  have I := inv_final c dt0 G
+  refine ⟨I.t_le_tf, ?_⟩
+  have hg : SolverLoop.guard c (solve c dt0).1 = false := by
+    apply loop_final_guard
+    have : (start c dt0).count = 0 := by
+      unfold start
+      rw [(landOn_t _ _).2.2.1, (getTimestep_fields c _).2.2]; rfl
+    omega
+  have hmax' : (loop c c.maxSteps (start c dt0)).1.count < c.maxSteps := hmax
+  have : ¬ ((loop c c.maxSteps (start c dt0)).1.eps < c.tf - (loop c c.maxSteps (start c dt0)).1.t) := by
+    intro h
+    have : SolverLoop.guard c (loop c c.maxSteps (start c dt0)).1 = true := by
+      simp [SolverLoop.guard, h, hmax']
+    rw [show (solve c dt0).1 = (loop c c.maxSteps (start c dt0)).1 from rfl] at hg
+    rw [hg] at this; cases this
+  exact not_lt.mp this
+
+/-- With ε = 0 the final time is exactly `tf`. -/
+theorem lands_on_tf_exact (c : Cfg α) (dt0 : α) (G : Good c dt0) (h0 : c.EPS = 0)
+    (hmax : (solve c dt0).1.count < c.maxSteps) : (solve c dt0).1.t = c.tf := by
+  obtain ⟨h1, h2⟩ := lands_on_tf c dt0 G hmax
+  have heps : (solve c dt0).1.eps = 0 := by
+    refine loop_final c (fun s => s.eps = 0) ?_ _ _ ?_
+    · intro s _ _
+      unfold iterSt
+      rw [dumpIfNeeded_fst]
+      split
+      · rw [(getTimestep_fields c _).2.1]; simp [advance, h0]
+      · rw [(landOn_t _ _).2.1, (getTimestep_fields c _).2.1]; simp [advance, h0]
+    · unfold start
+      rw [(landOn_t _ _).2.1, (getTimestep_fields c _).2.1]; simp [init, h0]
+  rw [heps] at h2
+  linarith
+
+/-- `max_steps` is honoured. -/
+theorem count_le_max_steps (c : Cfg α) (dt0 : α) : (solve c dt0).1.count ≤ c.maxSteps := by
+  have : ∀ fuel s, s.count ≤ c.maxSteps → (loop c fuel s).1.count ≤ c.maxSteps := by
+    intro fuel
+    induction fuel with
+    | zero => intro s h; exact h
+    | succ n ih =>
+      intro s h
+      unfold loop
+      split
+      · rename_i hg
+        apply ih
+        rw [iterSt_count]
+        have := (guard_running c s hg).2
+        omega
+      · exact h
+  apply this
+  have : (start c dt0).count = 0 := by
+    unfold start
+    rw [(landOn_t _ _).2.2.1, (getTimestep_fields c _).2.2]; rfl
+  omega
+
+/-! ## requested output times are never stepped past -/
+
+/-- **Never past a requested time.**  A step that starts more than ε before a
+requested time `T` ends at or before `T`. -/
+theorem never_past_requested_time (c : Cfg α) (dt0 : α) (G : Good c dt0) (s : St α)
+    (h : Ev.step s ∈ (solve c dt0).2) (T : α) (hT : T ∈ c.outT) (hbefore : s.eps < T - s.t) :
+    s.t + s.dt ≤ T :=
+  let ⟨I, hr⟩ := step_event c dt0 G s h; I.not_past hr T hT hbefore
+
+/-! ## the recorded step size -/
+
+/-- a `dump` event of the run carries a state satisfying the invariant -/
+private theorem dump_event (c : Cfg α) (dt0 : α) (G : Good c dt0) (s : St α)
+    (h : Ev.dump s ∈ (solve c dt0).2) : s = init c dt0 ∨ Inv c s := by
+  rcases mem_solve c dt0 _ h with h | h | h
+  · left; cases h; rfl
+  · right
+    refine loop_inv_events c dt0 G (fun e => ∀ s, e = Ev.dump s → Inv c s) ?_ _ h s rfl
+    intro s' I hg e he s'' hs
+    subst hs
+    rcases mem_iterEv c s' _ he with h | h | h | h
+    · cases h
+    · cases h
+    · cases h
+    · cases h; exact inv_iterSt c dt0 G s' I (guard_running c s' hg).1
+  · right; cases h; exact inv_final c dt0 G
+
+/-- **The recorded step size is the nominal one.**  Every dump written while
+the run is still short of `tf` and not on the step that lands on `tf` records
+`nom / damp`: the current undamped step size, whether or not the next step
+was shortened to land on a requested time. -/
+theorem recorded_dt_is_nominal (c : Cfg α) (dt0 : α) (G : Good c dt0) (s : St α)
+    (h : Ev.dump s ∈ (solve c dt0).2) (hr : Running c s) (hl : s.landed = false) :
+    solverData s = s.nom / s.damp := by
+  rcases dump_event c dt0 G s h with rfl | I
+  · simp [solverData, undamped, init]
+  · exact I.rec_nom hr hl
+
+/-- … and `nom / damp` is the undamped current step: what the integrator
+proposed, or the undamped previous nominal step. -/
+theorem nominal_undamped (c : Cfg α) (dt0 : α) (G : Good c dt0) (a : St α)
+    (h : ¬ absv (c.tf - a.t) < a.eps) :
+    (getTimestep c a).nom / (getTimestep c a).damp = (computeTimestep c (restorePrev a)).1 := by
+  obtain ⟨h1, h2⟩ := nom_is_current_step_size c a h
+  rw [h1, h2]
+  have := newDamp_pos c (computeTimestep c (restorePrev a)).2 G.hdamp
+  rw [mul_div_assoc, div_self (ne_of_gt this), mul_one]
+
+/-! ## callbacks -/
+
+private theorem noDumps_append (l1 l2 : List (Ev α)) :
+    noDumps (l1 ++ l2) = noDumps l1 ++ noDumps l2 := by
+  induction l1 with
+  | nil => rfl
+  | cons e rest ih => cases e <;> simp [noDumps, ih]
+
+private theorem noDumps_iterEv (c : Cfg α) (s : St α) :
+    noDumps (iterEv c s) = [Ev.pre, Ev.step s, Ev.post] := by
+  unfold iterEv
+  rcases dumpIfNeeded_snd c (getTimestep c (advance c s)) with h0 | h0 <;>
+    rw [h0] <;> simp [noDumps]
+
+private theorem loop_bracketed (c : Cfg α) :
+    ∀ fuel s, Bracketed (noDumps (loop c fuel s).2) ∧
+      (loop c fuel s).1.count = s.count + (stepsOf (loop c fuel s).2).length := by
+  intro fuel
+  induction fuel with
+  | zero => intro s; simp [loop, noDumps, Bracketed, stepsOf]
+  | succ n ih =>
+    intro s
+    unfold loop
+    split
+    · obtain ⟨h1, h2⟩ := ih (iterSt c s)
+      simp only [noDumps_append, noDumps_iterEv, stepsOf_append, stepsOf_iterEv]
+      refine ⟨h1, ?_⟩
+      rw [h2, iterSt_count]
+      simp; omega
+    · simp [noDumps, Bracketed, stepsOf]
+
+/-- **Callbacks run exactly once per step**: without the dump events the trace
+is `(pre, step, post)*`, and the final iteration count is the number of steps. -/
+theorem callbacks_once_per_step (c : Cfg α) (dt0 : α) :
+    Bracketed (noDumps (solve c dt0).2) ∧
+    (solve c dt0).1.count = (stepsOf (solve c dt0).2).length := by
+  obtain ⟨h1, h2⟩ := loop_bracketed c c.maxSteps (start c dt0)
+  have hc : (start c dt0).count = 0 := by
+    unfold start
+    rw [(landOn_t _ _).2.2.1, (getTimestep_fields c _).2.2]; rfl
+  unfold solve
+  simp only [noDumps_append, stepsOf_append]
+  simp only [noDumps, stepsOf, List.nil_append, List.append_nil]
+  exact ⟨h1, by rw [h2, hc]; simp⟩
+
+/-! ## dumps at the start, at the end, every `pfreq` iterations -/
+
+/-- The trace starts with a dump of the initial state (t = 0, count = 0,
+recorded dt = the configured one) and ends with a dump of the final state. -/
+theorem dump_at_start_and_end (c : Cfg α) (dt0 : α) :
+    (solve c dt0).2.head? = some (Ev.dump (init c dt0)) ∧
+    (solve c dt0).2.getLast? = some (Ev.dump (solve c dt0).1) ∧
+    (init c dt0).t = 0 ∧ (init c dt0).count = 0 ∧ solverData (init c dt0) = dt0 := by
+  refine ⟨by simp [solve], ?_, rfl, rfl, by simp [solverData, undamped, init]⟩
+  simp only [solve]
+  exact List.getLast?_concat
+
+private theorem loop_pfreq (c : Cfg α) :
+    ∀ fuel s k, s.count < k → k ≤ (loop c fuel s).1.count → k % c.pfreq = 0 →
+      ∃ d, Ev.dump d ∈ (loop c fuel s).2 ++ [Ev.dump (loop c fuel s).1] ∧ d.count = k := by
+  intro fuel
+  induction fuel with
+  | zero => intro s k h1 h2 _; simp [loop] at h2; omega
+  | succ n ih =>
+    intro s k h1 h2 hk
+    unfold loop at h2 ⊢
+    split at h2
+    · rename_i hg
+      simp only [hg, if_true]
+      by_cases hk1 : k = s.count + 1
+      · -- the pass that brings the count to k
+        by_cases hearly : absv ((getTimestep c (advance c s)).t - c.tf) < (getTimestep c (advance c s)).eps
+        · -- early return of `_dump_output_if_needed`: the loop ends, final dump
+          have hst : iterSt c s = getTimestep c (advance c s) := by
+            unfold iterSt; rw [dumpIfNeeded_fst]; simp [hearly]
+          have hng : SolverLoop.guard c (iterSt c s) = false := by
+            rw [hst]
+            have : ¬ Running c (getTimestep c (advance c s)) :=
+              fun hr => (running_not_early c _ hr).2 hearly
+            unfold Running at this
+            simp [SolverLoop.guard, this]
+          have hl : loop c n (iterSt c s) = (iterSt c s, []) := by
+            cases n with
+            | zero => rfl
+            | succ m => unfold loop; simp [hng]
+          refine ⟨iterSt c s, ?_, by rw [iterSt_count, hk1]⟩
+          rw [hl]; simp
+        · refine ⟨iterSt c s, ?_, by rw [iterSt_count, hk1]⟩
+          apply List.mem_append_left
+          apply List.mem_append_left
+          unfold iterEv
+          apply List.mem_append_right
+          have hcount : (getTimestep c (advance c s)).count % c.pfreq = 0 := by
+            rw [(getTimestep_fields c _).2.2]
+            show (s.count + 1) % c.pfreq = 0
+            rw [← hk1]; exact hk
+          unfold iterSt dumpIfNeeded
+          simp [hearly, hcount]
+      · have hlt : (iterSt c s).count < k := by rw [iterSt_count]; omega
+        obtain ⟨d, hd, hdk⟩ := ih (iterSt c s) k hlt h2 hk
+        refine ⟨d, ?_, hdk⟩
+        rcases List.mem_append.mp hd with h | h
+        · exact List.mem_append_left _ (List.mem_append_right _ h)
+        · exact List.mem_append_right _ h
+    · simp at h2; omega
+
+/-- **Output every `pfreq`-th iteration**: for every multiple `k` of `pfreq`
+up to the final iteration count there is a dump with iteration count `k`. -/
+theorem dump_every_pfreq (c : Cfg α) (dt0 : α) (k : Nat) (hk : k ≤ (solve c dt0).1.count)
+    (hmod : k % c.pfreq = 0) : ∃ d, Ev.dump d ∈ (solve c dt0).2 ∧ d.count = k := by
+  have hc : (start c dt0).count = 0 := by
+    unfold start
+    rw [(landOn_t _ _).2.2.1, (getTimestep_fields c _).2.2]; rfl
+  by_cases h0 : k = 0
+  · exact ⟨init c dt0, by simp [solve], by rw [h0]; rfl⟩
+  · obtain ⟨d, hd, hdk⟩ := loop_pfreq c c.maxSteps (start c dt0) k (by omega) hk hmod
+    refine ⟨d, ?_, hdk⟩
+    unfold solve
+    rcases List.mem_append.mp hd with h | h
+    · simp [h]
+    · simp at h; simp [h]
+
+end PysphVerif.C10
